@@ -17,6 +17,7 @@ def g08(pid, tier, replay):
         "design": [("GraphMachine", "GraphMachine_quick.cfg", 900)] if tier == Q else
                   [("GraphMachine", "GraphMachine_quick.cfg", 900), ("GraphMachine", "GraphMachine_depth2.cfg", 3000),
                    ("GraphMachine", "GraphMachine_types2.cfg", 3000)],
+        "proofs": ["GraphAlgebra"],
         "export": (96, 19) if tier == Q else (640, 23),
         "gens": [{"args": ["--mode", "edit", "--n", "400" if tier == Q else "4000", "--len", "10", "--ids", "5"]},
                  {"args": ["--mode", "edit", "--n", "60" if tier == Q else "600", "--len", "30", "--ids", "14", "--rich", "0.05"]}],
@@ -35,6 +36,7 @@ def g09(pid, tier, replay):
         "export": (48, 19) if tier == Q else (320, 23),
         "design": [("MC_GraphLaws", "GraphLaws_quick.cfg", 3000)] if tier == Q else
                   [("MC_GraphLaws", "GraphLaws_thorough.cfg", 7200), ("MC_GraphLaws", "GraphLaws_assoc.cfg", 3000)],
+        "proofs": ["GraphAlgebra"],
         "gens": [{"args": ["--mode", "laws", "--n", "250" if tier == Q else "3000", "--ids", "4", "--rich", "0.3"]},
                  {"args": ["--mode", "laws", "--n", "40" if tier == Q else "400", "--ids", "12", "--rich", "0.5"]}],
         "rule": "every script takes three seeded random node lists x, y, z (half of them ill-formed: dangling edges, several "
